@@ -53,6 +53,10 @@ CHECKS = {
    technique="bounded exhaustive enumeration (E1): full product of inputs x metric x axis x {csv,text} x -f/-leg/-acc through the real driver; the printed table is parsed back and every header field, row label and number is compared with reference scores rounded to the documented precision",
    text="N in {1,2,3} inputs x 10 metrics (thorough 19) x 16 data dimensions plus threshold / obs / fcst axes with -r (-q) lists in non-ascending order x {csv,text} x -f x -leg x -acc: 8448 command lines (quick). Checked: column count, one column per input in command-line order named by file or legend, one row per slice in axis order (as given for thresholds), leading fields (date integer groups, lead time, id/lat/lon/elev, threshold), every number against the reference dataset model + reference metric definition to 6 (csv) / 4 (text) significant digits and not printed with more digits, -f file == screen output and nothing on screen, -acc = running sums with missing scores counted as 0. Also the obsfcst table (obs column, forecast and quantile columns per input, 2 aggregators) and that the 26 diagrams without a table form refuse -type text|csv with an error.",
    note="trusts: mc/ref/scores.py and the reference metric modules; formatted dates compared by integer groups; fss table only via C19"),
+ "C14": dict(level="exploration", design="5/C14",
+   technique="bounded exhaustive enumeration (E1, deviation-bounded) of input / climatology coverage, storage order and missingness under -c and -C on the real Data object and CLI, against the reference anomaly pipeline, a metamorphic 'climatology as an extra input' oracle and naming invariants",
+   text="1-2 inputs (stored in different orders) + a climatology file whose coverage subset and order, missing cells (inputs' obs/fcst, climatology), a zero value (for -C) and a value equal to the observation are deviations: dev(2) (thorough dev(3)) x {-c, -C}. Each execution: 4-5 request sets x 5 axes against the reference (value - / climatology forecast at the same time, lead time, location; missing or non-finite dropped for every input; pit untouched), 9 metrics x 3 axes x inputs against reference definitions, mae/rmse/bias/stderror under -c equal to the columns obtained when the climatology is given as an additional input, num_inputs / names / legend never include the climatology (also when the caller's list of inputs is reused for a second dataset). CLI: -c/-C with mae, bias, fcst on 3 axes, csv columns and values.",
+   note="trusts: mc/ref/dataset.py appendix B step 7; obs-only scores are not judged when an input forecast is missing (undocumented)"),
 }
 
 def main():
